@@ -632,4 +632,4 @@ def _obligations():
 
 
 def obligations():
-    return _obligations() + [constructors_obligation(['cryomotl.Motl', 'cryomotl.EmMotl']), labels_obligation("C09"), selectors_obligation("C09"), mutations_obligation("C09"), effects_obligation("C09"), plumbing_obligation("C09"), overrides_obligation("C09"), options_obligation("C09"), handlers_obligation("C09")]
+    return _obligations() + [constructors_obligation(['cryomotl.Motl', 'cryomotl.EmMotl']), labels_obligation("C09"), selectors_obligation("C09"), mutations_obligation("C09"), loopstate_obligation("C09"), effects_obligation("C09"), plumbing_obligation("C09"), overrides_obligation("C09"), options_obligation("C09"), handlers_obligation("C09")]
